@@ -34,6 +34,7 @@ structure OState where
   roc : Rat := 0
   overSeen : Bool := false
   implAcb : List (Aff × Rat) := []   -- the cost base the implementation itself reports, per affiliate (latest row)
+  implShares : List (Aff × Rat) := [] -- the share balance the implementation reports, per affiliate (latest row)
 
 def bookClose (mag : Rat) (b : Spec.Book) (sh : Rat) (acb : Option Rat) : Bool :=
   close b.shares sh && closeOptAt mag b.acb acb
@@ -96,7 +97,15 @@ partial def oracleRows (mag : Rat) (initAcb : Rat) (c3 : Bool) (complete : Bool)
       | .sell sh px comm rate crate _ => { st' with proceeds := st'.proceeds + (px * sh * rate - comm * commRate rate crate) }
       | .roc ps rate => { st' with roc := st'.roc + ps * b.shares * rate }
       | _ => st'
-    let st' := { st' with implAcb := (x.aff, x.post.acb.getD 0) :: st'.implAcb.filter (fun p => p.1 ≠ x.aff) }
+    let st' := { st' with implAcb := (x.aff, x.post.acb.getD 0) :: st'.implAcb.filter (fun p => p.1 ≠ x.aff),
+                          implShares := (x.aff, x.post.shares) :: st'.implShares.filter (fun p => p.1 ≠ x.aff) }
+    -- while no other affiliate has appeared at all, the all-affiliate balance IS this affiliate's
+    -- balance: no rounding can separate them (once another affiliate has held shares, 28-digit
+    -- residue may remain in the total) (C04: total = sum of the affiliates' latest balances)
+    let e4b : List (String × String) :=
+      if (st'.implShares.all (fun p => p.1 == x.aff)) && x.post.all ≠ x.post.shares then
+        [("C04", s!"row {i}: only this affiliate has ever held shares, yet the all-affiliate balance {ratToString x.post.all} differs from its balance {ratToString x.post.shares}")]
+      else []
     let st' := { st' with gains := st'.gains + x.gain.getD 0,
                           overSeen := st'.overSeen || (match x.sfl with | some s => s.over | none => false) }
     -- a row boundary "with its automatic adjustments applied": the next row is an input row, or
@@ -113,7 +122,7 @@ partial def oracleRows (mag : Rat) (initAcb : Rat) (c3 : Bool) (complete : Bool)
         if rabs (st'.gains - rhs) ≤ ((i + 1 : Nat) : Rat) * unit then []
         else [("C03", s!"after row {i}: gains so far {ratToString st'.gains} ≠ proceeds−costs+roc+held cost base {ratToString rhs}")]
       else []
-    let errs := e1 ++ e4 ++ e3 ++ e15
+    let errs := e1 ++ e4 ++ e4b ++ e3 ++ e15
     if errs.isEmpty then oracleRows mag initAcb c3 complete (i + 1) st' rest else errs
 
 def ledgerOracles (dflt : Aff) (init : Option Status) (txs : List Tx) (impls : List ImplDelta)
@@ -129,7 +138,8 @@ def ledgerOracles (dflt : Aff) (init : Option Status) (txs : List Tx) (impls : L
     let mag := rows.foldl (fun m (_, x) =>
       [rabs (x.pre.acb.getD 0), rabs (x.post.acb.getD 0), rabs (x.gain.getD 0)].foldl (fun m v => if m < v then v else m) m) 0
     oracleRows mag initAcb c3 complete 0
-      { books := Spec.Books.init dflt init, affs := [dflt], implAcb := if initAcb == 0 then [] else [(dflt, initAcb)] } rows
+      { books := Spec.Books.init dflt init, affs := [dflt], implAcb := if initAcb == 0 then [] else [(dflt, initAcb)],
+        implShares := match init with | some st => [(dflt, st.shares)] | none => [] } rows
 
 /-- C04, "a history free of these is never rejected": when the implementation rejects a row, the
     reason must be one of those C04 lists, judged on the implementation's OWN rows so far (the
